@@ -14,7 +14,7 @@ TRUSTED_COMMON = [
 
 import families
 FAMS = families.load_all()
-GENERIC_PROPS = ["C01", "C02", "C03", "C04", "C05", "C06", "C07", "C08", "C10"]
+GENERIC_PROPS = ["C01", "C02", "C03", "C04", "C05", "C06", "C07", "C08", "C10", "C14"]
 PLAN = {pid: dict(fams=[n for n, f in FAMS.items() if pid in f["props"]]) for pid in GENERIC_PROPS}
 
 
@@ -78,6 +78,12 @@ def run(pid, tier, seed, replay=None):
     if pid == "C13":
         import p13
         return p13.run(tier, seed, replay)
+    if pid == "C09":
+        import p09
+        return p09.run(tier, seed, replay)
+    if pid == "C12":
+        import p12
+        return p12.run(tier, seed, replay)
     if pid == "C19":
         import p19
         return p19.run(tier, seed, replay)
